@@ -3,6 +3,22 @@ NOTES = ("All checks share one Coq development and one harness; ./check --setup 
          "Fix commits in /repo (F1-F7) are listed in known_findings.json as fixed entries.")
 NOT_APPLICABLE = {}
 CHECKS = {
+    "C06": {
+        "text": "Theorems over the Gallina model of sharks: Lagrange interpolation at zero in the code's shape over the field Fp (root bound by "
+                "synthetic division), recovery from any collection with t distinct points (order, duplicates, surplus), refusal of too few / "
+                "unequal / threshold 0, dealer structure (constant terms = decoded secret elements, other coefficients = consecutive draws), "
+                "refusal of out-of-range secrets, non-zero random points. The model IS the independent big-integer implementation; it is "
+                "compared bit-exactly with the Rust under a recorded random source on every run.",
+        "note": "Trusted: Coq kernel, extraction, harness, the model's reading of ff_derive's random (validated by correspondence).",
+    },
+    "C07": {
+        "text": "prime(2^128+12451) by a kernel-checked Pratt certificate; Fp is a field (field_theory), inversion/pow/sqrt meet their "
+                "specifications (Fermat proved from the generator), one canonical 24-byte encoding, rejection exactly of length<>24 or value>=p, "
+                "generator of order p-1 and non-residue, ROOT_OF_UNITY=-1, DELTA=g^2, TWO_INV - all over the constants regenerated from the "
+                "source attributes. The ff_derive limb arithmetic itself is compared with the model on a boundary lattice squared (translation-"
+                "validation flavour), not proved.",
+        "note": "Trusted: Coq kernel + vm_compute for the certificate; the tie to ff_derive's generated code is the differential run.",
+    },
     "C16": {
         "text": "Theorems over the Gallina model of adss (any message/coin length, any threshold, any permutation F in place of Keccak-f): "
                 "recovery from t distinct points returns the shared (t, M, R); everything but the share point is a function of (t,M,R,T); "
